@@ -28,7 +28,7 @@ var (
 	clContain = []string{"api-panic", "goroutine-panic", "deadlock", "hang", "sync-misuse"}
 	clResult  = []string{"result-map"}
 	clLocals  = []string{"unassigned-local-visible", "local-changed-by-other-execution", "local-lost", "shared-injected-not-visible"}
-	clRuleSet = []string{"ruleset-extra-rule", "ruleset-wrong-version", "ruleset-wrong-salience", "ruleset-order", "ruleset-duplicate", "ruleset-missing-rule",
+	clRuleSet = []string{"ruleset-extra-rule", "ruleset-wrong-version", "ruleset-wrong-salience", "ruleset-order", "ruleset-duplicate", "ruleset-missing-rule", "ruleset-wrong-metadata",
 		"exist-query-disagrees", "mgmt-panic", "invalid-text-accepted", "valid-operation-rejected"}
 	clConc    = []string{"conc-child-count", "conc-join", "conc-error-lost", "conc-next-statement-missing", "conc-assignment-lost", "event-after-return"}
 )
@@ -69,20 +69,20 @@ var (
 		MinRules: 1, MaxRules: 8, SalSpan: 3,
 		Secs:    map[int]int{SecY: 2, SecCall: 3, SecAsgCall: 2},
 		MaxSecs: 3, Rets: []int{RetNone, RetNone, RetNestedV},
-		FaultPct: 60, GatePct: 10, RetPct: 50, MinCalls: 6, MaxCalls: 20, UnknownNamePct: 30,
+		FaultPct: 60, GatePct: 10, RetPct: 50, MinCalls: 6, MaxCalls: 20, UnknownNamePct: 30, EvolvePct: 40,
 	}
 	ProfC05 = &Profile{
 		Methods:  stagedMethods,
 		MinRules: 1, MaxRules: 8, SalSpan: 2,
 		Secs:    map[int]int{SecY: 5, SecCall: 2, SecAsgCall: 1},
 		MaxSecs: 4, Rets: []int{RetNone, RetNone, RetNestedV},
-		FaultPct: 50, GatePct: 55, RetPct: 50, MinCalls: 6, MaxCalls: 20, UnknownNamePct: 8, BadNMPct: 5,
+		FaultPct: 50, GatePct: 55, RetPct: 50, MinCalls: 6, MaxCalls: 20, UnknownNamePct: 8, BadNMPct: 5, EvolvePct: 25,
 	}
 	ProfC09 = &Profile{
 		Methods:  allEngineMethods,
 		MinRules: 1, MaxRules: 6, SalSpan: 2,
 		Secs: map[int]int{SecY: 2, SecCall: 2, SecAsgCall: 1, SecAsgKind: 2, SecDiv: 2, SecIdx: 2, SecNil: 2, SecUnknown: 2, SecArg: 2,
-			SecIfKind: 2, SecIfIdx: 2, SecIfNil: 2, SecElif: 2, SecForKind: 2, SecForStep: 1, SecUnb: 1, SecConc: 2, SecIfCall: 2, SecForRange: 2, SecMapIdx: 2},
+			SecIfKind: 2, SecIfIdx: 2, SecIfNil: 2, SecElif: 2, SecForKind: 2, SecForStep: 1, SecUnb: 1, SecConc: 2, SecIfCall: 2, SecForRange: 2, SecMapIdx: 2, SecSetKind: 2, SecSetNil: 2},
 		MaxSecs: 4, Rets: []int{RetNone, RetNestedV, RetKind, RetTopKind, RetTop},
 		FaultPct: 75, GatePct: 10, RetPct: 50, MinCalls: 4, MaxCalls: 12, UnknownNamePct: 15, BadNMPct: 15,
 	}
@@ -91,35 +91,35 @@ var (
 		MinRules: 1, MaxRules: 6, SalSpan: 2,
 		Secs:    map[int]int{SecY: 2, SecCall: 2, SecAsgKind: 1},
 		MaxSecs: 2, Rets: []int{RetNone, RetNestedV, RetNestedV, RetNestedB, RetLoop, RetTop, RetTopB, RetKind, RetTopKind, RetElse},
-		FaultPct: 45, FaultKinds: map[int]bool{SecCall: true, SecAsgKind: true, -1: true}, GatePct: 10, RetPct: 65, MinCalls: 4, MaxCalls: 14, UnknownNamePct: 15, BadNMPct: 5,
+		FaultPct: 45, FaultKinds: map[int]bool{SecCall: true, SecAsgKind: true, -1: true}, GatePct: 10, RetPct: 65, MinCalls: 4, MaxCalls: 14, UnknownNamePct: 15, BadNMPct: 5, EvolvePct: 20,
 	}
 	ProfC12 = &Profile{
 		Methods:  selectedMethods,
 		MinRules: 1, MaxRules: 7, SalSpan: 2,
 		Secs:    map[int]int{SecY: 3, SecCall: 2},
 		MaxSecs: 3, Rets: []int{RetNone, RetNone, RetNestedV},
-		FaultPct: 40, GatePct: 25, RetPct: 50, StopPct: 0, MinCalls: 6, MaxCalls: 20, UnknownNamePct: 45, BadNMPct: 30,
+		FaultPct: 40, GatePct: 25, RetPct: 50, StopPct: 0, MinCalls: 6, MaxCalls: 20, UnknownNamePct: 45, BadNMPct: 30, EvolvePct: 25,
 	}
 	ProfC13 = &Profile{
 		Methods:  []int{MDAG},
 		MinRules: 1, MaxRules: 6, SalSpan: 2,
 		Secs:    map[int]int{SecY: 4, SecCall: 2},
 		MaxSecs: 3, Rets: []int{RetNone, RetNone, RetNestedV, RetTop},
-		FaultPct: 50, GatePct: 55, RetPct: 50, MinCalls: 4, MaxCalls: 14, UnknownNamePct: 40,
+		FaultPct: 50, GatePct: 55, RetPct: 50, MinCalls: 4, MaxCalls: 14, UnknownNamePct: 40, EvolvePct: 20,
 	}
 	ProfC14 = &Profile{
 		Methods:  []int{MExecuteStopTag, MExecuteStopTag, MMixStopTag, MMixStopTag, MSelectedCtlStop, MSelectedCtlStopGiven},
 		MinRules: 1, MaxRules: 7, SalSpan: 2,
 		Secs:    map[int]int{SecY: 2, SecCall: 2, SecStop: 4},
 		MaxSecs: 3, Rets: []int{RetNone, RetNone, RetNestedV},
-		FaultPct: 45, GatePct: 20, RetPct: 50, StopPct: 30, MinCalls: 6, MaxCalls: 20, UnknownNamePct: 20,
+		FaultPct: 45, GatePct: 20, RetPct: 50, StopPct: 30, MinCalls: 6, MaxCalls: 20, UnknownNamePct: 20, EvolvePct: 15,
 	}
 	ProfC15 = &Profile{
 		Methods:  cat(allEngineMethods, rep(MDAG, 3), rep(MConcurrent, 2)),
 		MinRules: 2, MaxRules: 6, SalSpan: 2,
-		Secs:    map[int]int{SecY: 3, SecLocal: 5, SecReader: 2, SecCall: 1},
+		Secs:    map[int]int{SecY: 3, SecLocal: 5, SecReader: 2, SecCall: 1, SecIfKind: 1, SecIfIdx: 1, SecForKind: 1, SecAsgKind: 1, SecShW: 2, SecShR: 2},
 		MaxSecs: 3, Rets: []int{RetNone, RetNestedV},
-		FaultPct: 25, GatePct: 30, RetPct: 50, MinCalls: 4, MaxCalls: 14, UnknownNamePct: 10, BadNMPct: 5,
+		FaultPct: 40, GatePct: 30, RetPct: 50, MinCalls: 4, MaxCalls: 14, UnknownNamePct: 10, BadNMPct: 5,
 	}
 	ProfC18 = &Profile{
 		Methods:  []int{MExecute, MExecute, MConcurrent, MMix, MDAG},
@@ -135,8 +135,8 @@ var allPoolMethodsNoEM = allEngineMethods
 var (
 	ProfC17 = &Profile{
 		MinRules: 1, MaxRules: 4, SalSpan: 1,
-		Secs:    map[int]int{SecY: 4, SecCall: 2, SecIfKind: 1, SecConc: 1},
-		MaxSecs: 3, Rets: []int{RetNone, RetNestedV},
+		Secs:    map[int]int{SecY: 4, SecCall: 2, SecIfKind: 1, SecConc: 1, SecEcho: 3},
+		MaxSecs: 3, Rets: []int{RetNone, RetNestedV, RetReq},
 		FaultPct: 40, GatePct: 60, RetPct: 50, StopPct: 10, UnknownNamePct: 15, BadNMPct: 10,
 	}
 	ProfC06 = &Profile{
@@ -159,8 +159,10 @@ var (
 	}
 	clPoolMgmt  = []string{"query-disagrees", "instance-runs-stale-rules", "cleared-pool-call-failed", "mgmt-panic", "invalid-operation-accepted", "valid-operation-rejected"}
 	clCompile   = []string{"compile-panic", "entry-points-disagree", "invalid-text-accepted", "valid-text-rejected", "failed-compile-changed-state",
-		"entry-points-install-different-sets", "ruleset-extra-rule", "ruleset-wrong-version", "ruleset-wrong-salience", "ruleset-order", "ruleset-duplicate", "ruleset-missing-rule"}
+		"entry-points-install-different-sets", "ruleset-extra-rule", "ruleset-wrong-version", "ruleset-wrong-salience", "ruleset-order", "ruleset-duplicate", "ruleset-missing-rule", "ruleset-wrong-metadata"}
 	clVersions  = []string{"not-one-installed-version", "mgmt-panic", "invalid-text-accepted"}
+	// two in-flight requests on one engine instance see each other's injected data / observer
+	clShared    = []string{"foreign-request-data", "stray-event", "unscheduled-rule-ran", "ran-more-than-once"}
 	clCapacity  = []string{"more-than-max-in-flight", "request-did-not-wait", "pool-capacity-lost"}
 	clIsolation = []string{"foreign-request-data", "stale-injected-key-visible", "result-map-modified-after-return", "request-data-modified-after-return",
 		"stray-event", "unscheduled-rule-ran", "event-after-return", "result-map"}
@@ -218,7 +220,7 @@ func init() {
 	register(&PropDef{ID: "C13", Run: mixed(ProfC13), Clauses: set(clSpec, clContain)})
 	register(&PropDef{ID: "C14", Run: mixed(ProfC14), Clauses: set(clSpec, clContain)})
 	register(&PropDef{ID: "C15", Run: mixed(ProfC15), Clauses: set(clLocals, clContain)})
-	register(&PropDef{ID: "C17", Clauses: set(clCapacity, clContain), Run: w2(&W2Opt{Prof: ProfC17, Methods: allEngineMethods, MaxClients: 6, MaxReqs: 4,
+	register(&PropDef{ID: "C17", Clauses: set(clCapacity, clContain, clShared), Run: w2(&W2Opt{Prof: ProfC17, Methods: allEngineMethods, MaxClients: 6, MaxReqs: 4,
 		FinalProbe: true, WaiterRound: true, NilTagPct: 40, Oracle: OracleC17})})
 	register(&PropDef{ID: "C06", Clauses: set(clIsolation, clContain), Run: w2(&W2Opt{Prof: ProfC06, Methods: allEngineMethods, MaxClients: 5, MaxReqs: 5,
 		OptPct: 50, Oracle: OracleC06})})
@@ -230,5 +232,5 @@ func init() {
 	register(&PropDef{ID: "C10", Clauses: set(clCompile, clContain), Run: RunW3Compile})
 	register(&PropDef{ID: "C19", Clauses: set([]string{"data-race"}), Run: runC19, Race: true})
 	register(&PropDef{ID: "C08", Run: RunW3Builder, Clauses: set(clRuleSet, clContain)})
-	register(&PropDef{ID: "C18", Run: w1(ProfC18), Clauses: set(clConc, clContain)})
+	register(&PropDef{ID: "C18", Run: mixed(ProfC18), Clauses: set(clConc, clContain)})
 }
